@@ -345,6 +345,16 @@ pub fn run(ctx: &Ctx) -> Finish {
             add_seqs.push(p.iter().map(|i| (SAMPLE_IDS[*i], d[*i])).collect());
         }
     });
+    // thorough: every Samples message with k = 5 over the 4-state pool, on every 8th instance
+    let mut shapes5: Vec<Vec<(usize, Vec<u64>)>> = vec![];
+    if t {
+        for part in ordered_partitions(&SAMPLE_IDS[..5]) {
+            odometer(&vec![4; part.len()], |d| {
+                shapes5.push(part.iter().zip(d).map(|(b, pi)| (*pi, b.clone())).collect());
+            });
+        }
+    }
+    ctx.note("samples_messages_k5_full", json!(shapes5.len()));
     let big_stride = if t { 1 } else { 7 };
     ctx.par(insts.len(), |l, i| {
         let (inst, pool) = &insts[i];
@@ -358,6 +368,11 @@ pub fn run(ctx: &Ctx) -> Finish {
         }
         for (k, sh) in big.iter().enumerate() {
             if k % big_stride == i % big_stride || sh.iter().map(|e| e.1.len()).sum::<usize>() >= 7 {
+                check_case(l, &Case { inst: inst.clone(), pool: pool.clone(), entries: sh.clone(), via_add_sample: None });
+            }
+        }
+        if i % 8 == 0 {
+            for sh in &shapes5 {
                 check_case(l, &Case { inst: inst.clone(), pool: pool.clone(), entries: sh.clone(), via_add_sample: None });
             }
         }
